@@ -5,7 +5,7 @@ OPTS = [dict(p_rel=1.0), dict(p_rel=1.0, max_m=2, max_t=4), dict(p_rel=1.0, p_ne
 
 
 def run(rep):
-    core_check(rep, "C08", [dict(o) for o in OPTS], 96, 1600, nontrivial_key="impl_with_prio_rel")
+    core_check(rep, "C08", [dict(o) for o in OPTS], 64, 1600, nontrivial_key="impl_with_prio_rel")
     rep.coverage["rule"] = ("random designs from vlib/coregen.py's grammar built with the real API, every valuation of the "
                             "control inputs (or random ones when there are many), both directions bound by TxnCoreTrace; "
                             "clause PriorityRespected for every prioritised conflict lifted to transactions; distinct_nontrivial = built designs with a prioritised conflict")
